@@ -171,6 +171,9 @@ class Monitor:
         self.last_fit = None
         self.seq = 0
         self.recent = []  # last rotate_tetrahedral calls with the moved atom objects
+        self.dihedral_calls = 0
+        self.dihedral_hist = {}  # (residue, dihedral index) -> numbers of added hydrogens the residue had at the calls
+        self.dihedral_fail = []  # Debump.set_dihedral_angle calls whose moved set is not the current subtree
         self.choices = []  # rebuild_tetrahedral numbonds == 3: the +120 / +240 choice
 
     def __enter__(self):
@@ -264,11 +267,69 @@ class Monitor:
             return r
 
         patch(popt.Optimize, "make_atom_with_no_bonds", w_nb)
+
+        from pdb2pqr import debump as pdebump
+
+        orig_sda = pdebump.Debump.__dict__["set_dihedral_angle"]
+
+        def w_sda(self_, residue, anglenum, angle):
+            before = {id(a): (a, (a.x, a.y, a.z)) for a in residue.atoms}
+            r = orig_sda(self_, residue, anglenum, angle)
+            mon.dihedral_calls += 1
+            nh = sum(1 for a in residue.atoms if a.name.startswith("H") and getattr(a, "added", 0))
+            mon.dihedral_hist.setdefault((id(residue), anglenum), set()).add(nh)
+            try:
+                why = mon._judge_dihedral(residue, anglenum, before)
+            except Exception as e:  # noqa - a residue the oracle cannot read is reported, not fatal
+                why = None
+                mon.unknown_sites[f"set_dihedral_angle oracle error {type(e).__name__}"] = 1
+            if why and len(mon.dihedral_fail) < 50:
+                frames = _caller_sites()
+                why["caller"] = frames[0][0] if frames else "?"
+                mon.dihedral_fail.append(why)
+            return r
+
+        patch(pdebump.Debump, "set_dihedral_angle", w_sda)
         return self
 
     def __exit__(self, *a):
         for obj, name, old in reversed(self._saved):
             setattr(obj, name, old)
+
+    @staticmethod
+    def _judge_dihedral(residue, anglenum, before):
+        """Model-independent, at the moment of the call: the atoms whose coordinates actually changed vs the CURRENT
+        truth of the residue - residue.get_moveable_names(pivot) computed fresh, and the bond lists as they are now
+        (an atom all of whose bonded atoms moved must have moved; a moved atom must be in the fresh set)."""
+        names = residue.reference.dihedrals[anglenum].split()
+        pivot = names[2]
+        changed = {a.name for a, p in before.values() if residue.map.get(a.name) is a and (a.x, a.y, a.z) != p}
+        if not changed:
+            return None
+        disp = max(math.dist((a.x, a.y, a.z), p) for a, p in before.values())
+        if disp < 1e-9:
+            return None
+        fresh = set(residue.get_moveable_names(pivot))
+        kind = None
+        detail = ""
+        # bond-list truth, independent of get_moveable_names: an atom not moved although everything it is bonded to moved
+        for a in residue.atoms:
+            if a.name in changed or a.name in names[1:3]:
+                continue
+            own = [b for b in a.bonds if residue.map.get(b.name) is b]
+            if own and all(b.name in changed for b in own):
+                kind = "hydrogen-left-behind" if a.name.startswith("H") else "atom-left-behind"
+                par = own[0]
+                detail = f"{a.name} stayed while its bonded atom {par.name} moved (now {math.dist(a.coords, par.coords):.3f} A apart)"
+                break
+        if kind is None and changed != fresh:
+            extra, missing = sorted(changed - fresh), sorted(fresh - changed)
+            kind = "extra-atom-moved" if extra else "subtree-atom-not-moved"
+            detail = f"moved but not in the current subtree: {extra}; in the current subtree but not moved: {missing}"
+        if kind is None:
+            return None
+        return {"residue": str(residue), "resname": residue.name, "dihedral": " ".join(names), "kind": kind, "detail": detail,
+                "moved": sorted(changed), "fresh": sorted(fresh)}
 
     def _fit_names(self, rec, frames):
         """For add_hydrogens / repair_heavy: which template names the three structure atoms stand for, what
@@ -549,8 +610,28 @@ def check_fit_neighbours(ctx, fits, label, case):
     return nfail
 
 
+def check_dihedral_moves(ctx, mon, label, case):
+    ctx.count("set_dihedral_angle:calls-judged", mon.dihedral_calls)
+    both = sum(1 for v in mon.dihedral_hist.values() if len(v) > 1)
+    ctx.count("history:same-dihedral-rotated-with-different-hydrogen-sets", both)
+    if mon.dihedral_calls:
+        ctx.evaluated(("set_dihedral_angle-moves", label), True, mon.dihedral_calls)
+    seen = set()
+    for w in mon.dihedral_fail:
+        k = (w["residue"], w["dihedral"], w["kind"])
+        if k in seen:
+            continue
+        seen.add(k)
+        ctx.fail(
+            {"site": "Debump.set_dihedral_angle", "condition": "moved-set-differs-from-current-subtree", "kind": w["kind"]},
+            f"{label}: {w['residue']} dihedral {w['dihedral']} (called from {w['caller']}): {w['detail']}; moved {w['moved']}, current subtree {w['fresh']}",
+            dict(case, residue=w["residue"], atom=None, field="set_dihedral_angle", dihedral=w["dihedral"]),
+        )
+    return len(seen)
+
+
 def judge_run(ctx, bio, mon, label, case, stats=None):
-    return check_fit_neighbours(ctx, mon.fits, label, case) + check_added_atoms(ctx, bio, label, case, stats)
+    return check_dihedral_moves(ctx, mon, label, case) + check_fit_neighbours(ctx, mon.fits, label, case) + check_added_atoms(ctx, bio, label, case, stats)
 
 
 # --------------------------------------------------------------------------
@@ -660,6 +741,7 @@ def build_cases(ctx):
         cases.append((f"helix {'-'.join(seq)}", B.to_pdb(B.build_peptide(seq, helix=True, rotation=B.random_rotation(nrng))), OPTION_SETS[len(cases) % 3], "helix"))
     cases += break_cases(ctx, rng, nrng)
     cases += threshold_cases(ctx, rng, nrng)
+    cases += history_cases(ctx, rng, nrng)
     cases += hydrogen_pattern_cases(ctx, rng, nrng)
     cases += truncation_cases(ctx, rng, nrng)
     return cases
@@ -881,6 +963,82 @@ def threshold_cases(ctx, rng, nrng):
     for d in (2.04, 2.45, 2.6):
         a_, b_ = B.disulfide_pair(d, rng=nrng)
         cases.append((f"two cysteines with SG-SG {d} A", B.to_pdb(a_ + b_), ["--ff=AMBER"] if d != 2.45 else ["--ff=PARSE"], "threshold-ss"))
+    return cases
+
+
+KEEP_AFTER_CB = {"N", "CA", "C", "O", "CB", "OXT", "H", "HA", "HN", "H1", "H2", "H3"}
+
+
+def truncate_pdb_residue(text, chain, resseq, icode=" "):
+    """PDB text with one residue cut back to backbone + CB (repair_heavy rebuilds the side chain in place)."""
+    out = []
+    for ln in text.splitlines():
+        if ln.startswith(("ATOM", "HETATM", "ANISOU")) and ln[21] == chain and ln[22:26].strip() == str(resseq) and ln[26] == icode:
+            if ln[12:16].strip() not in KEEP_AFTER_CB:
+                continue
+        out.append(ln)
+    return "\n".join(out) + "\n"
+
+
+def first_model(text):
+    out = []
+    for ln in text.splitlines():
+        if ln.startswith("ENDMDL"):
+            break
+        out.append(ln)
+    return "\n".join(out) + "\n"
+
+
+def file_residues(text):
+    """[(chain, resseq, resname)] of the polymer residues of a PDB text that have side-chain atoms beyond CB."""
+    seen, order = {}, []
+    for ln in text.splitlines():
+        if ln.startswith("ATOM") and ln[26] == " ":
+            k = (ln[21], int(ln[22:26]), ln[17:20].strip())
+            if k not in seen:
+                seen[k] = set()
+                order.append(k)
+            seen[k].add(ln[12:16].strip())
+    return [k for k in order if k[2] in B.STANDARD_AA and len({n for n in seen[k] if not n.startswith("H")} - KEEP_AFTER_CB) >= 2]
+
+
+def history_cases(ctx, rng, nrng):
+    """Histories in which the SAME residue is rotated both before and after hydrogens exist: a side chain missing after CB
+    is rebuilt INTO other atoms (first debump pass rotates it without hydrogens), then hydrogens are added and the same
+    dihedral is rotated again (second debump pass, or the ASN / GLN / HIS flip)."""
+    cases = []
+    # (1) builder: the rebuilt atoms land on waters placed where the deleted atoms were
+    long_chain = ["LYS", "ARG", "GLU", "GLN", "MET", "LEU", "ILE", "PHE", "TYR", "HIS", "ASN", "ASP", "TRP", "THR", "VAL", "SER"]
+    pick = long_chain if ctx.thorough else rng.sample(long_chain[:12], 6)
+    for i, rn in enumerate(pick):
+        dep = side_chain_depths(rn)
+        gone = {a for a, x in dep.items() if x >= 2}
+        if not gone:
+            continue
+        npad = max(4, (len(gone) * 11) // 10 + 1)
+        seq = ["ALA"] * npad + [rn] + ["ALA"] * npad
+        full = B.build_peptide(seq, rotation=B.random_rotation(nrng))
+        pos = npad + 1
+        lost = [a for a in full if a.resseq == pos and a.name in gone]
+        cut = B.delete_atoms(full, lambda a, pos=pos, gone=gone: a.resseq == pos and a.name in gone)
+        for variant in range(2 if not ctx.thorough else 4):
+            blockers = []
+            for j, la in enumerate(lost[: 3 + variant]):
+                u = nrng.normal(size=3)
+                p = la.xyz + u / np.linalg.norm(u) * (0.6 + 0.5 * ((j + variant) % 3))
+                blockers.append(B.AtomRec("HETATM", 0, "O", "", "HOH", "W", 1 + j, "", float(p[0]), float(p[1]), float(p[2]), 1.0, 0.0, "O"))
+            cases.append((f"{rn} cut after CB, {len(blockers)} waters where the rebuilt atoms land (variant {variant})", B.to_pdb(B.reserial(cut + blockers)), OPTION_SETS[0] if variant % 2 == 0 else ["--ff=PARSE"], "history"))
+    # (2) real proteins: one residue at a time cut back to CB; its rebuilt side chain clashes with the packed neighbours
+    for name, every in (("1AJJ.pdb", 1), ("1BX8.pdb", 1)) if ctx.thorough else (("1AJJ.pdb", 0),):
+        path = core.REPO / "tests" / "data" / name
+        if not path.exists():
+            continue
+        text = first_model(path.read_text())
+        residues = file_residues(text)
+        if not every:
+            residues = rng.sample(residues, min(10, len(residues)))
+        for ch, rs, rn in residues:
+            cases.append((f"{name} with {rn} {ch} {rs} cut after CB", truncate_pdb_residue(text, ch, rs), ["--ff=AMBER"], "history-file"))
     return cases
 
 
